@@ -214,6 +214,10 @@ def run_case(c, ns):
                             "outcome": run_case({"cls": c["cls"], "op": "roundtrip", "raw": r.hex(), "offset": off,
                                                  "record": c.get("record")}, ns)})
             return {"packed": {"ok": raw.hex()}, "derived": out}
+        if op == "eqvals":
+            a = build(c["a"], ns)
+            b = build(c["b"], ns)
+            return {"ok": [bool(a == b), bool(a != b), isinstance(repr(a), str)]}
         if op == "blocks":
             return {"ok": {"unpack": generated_blocks(cls, "unpack_impl"), "pack": generated_blocks(cls, "pack_impl")}}
         if op == "api":
@@ -233,6 +237,13 @@ def run_case(c, ns):
                 except Exception as e:
                     out.setdefault("nonbytes", []).append(type(e).__name__)
             return out
+        if op == "eq_from_value":
+            try:
+                raw0 = build(c["value"], ns).pack()
+            except Exception as e:
+                return outcome_of_exception(e)
+            c = dict(c, op="eq", raw=raw0.hex())
+            op = "eq"
         if op == "eq":
             # equality / inequality / repr of packets: two parses of the same bytes, one field changed, another class
             raw = bytes.fromhex(c["raw"])
